@@ -131,8 +131,13 @@ pub fn cmp_stages(r: &mut Report) {
     };
     for w in 0..=u16::MAX {
         r.comparisons += 1;
-        if !same(c::c_ps2, t::t_ps2, &|d| format!("{:?}", d.add_word(w))) || !same(c::c_ps2, t::t_ps2, &|d| format!("{:?} {:?}", d.add_word(w), c::S_PS2.add_word(w))) {
+        if !same(c::c_ps2, t::t_ps2, &|d| format!("{:?}", d.add_word(w))) {
             bad(r, format!("Ps2Decoder::add_word({:#06x}) differs", w));
+        }
+        // through a shared reference to the static - only if add_word takes `&self` (C20 does not demand that it does)
+        #[cfg(feature = "shared_add_word")]
+        if !same(c::c_ps2, t::t_ps2, &|d| format!("{:?} {:?}", d.add_word(w), c::S_PS2.add_word(w))) {
+            bad(r, format!("Ps2Decoder::add_word({:#06x}) on the static differs", w));
         }
     }
     for first in 0..2048u16 {
@@ -160,7 +165,11 @@ pub fn cmp_stages(r: &mut Report) {
     }
     // const-evaluated accessors and the predicate table
     r.comparisons += 9;
-    if !c::R_MODS_NUMLOCK || !c::R_MODS.numlock || c::R_PS2.add_word(0x0402) != t::t_ps2().add_word(0x0402) || c::SR_PS2.add_word(0x0402) != Ok(0x01) {
+    if !c::R_MODS_NUMLOCK || !c::R_MODS.numlock {
+        bad(r, "references to const-built objects give wrong values".into());
+    }
+    #[cfg(feature = "shared_add_word")]
+    if c::R_PS2.add_word(0x0402) != t::t_ps2().add_word(0x0402) || c::SR_PS2.add_word(0x0402) != Ok(0x01) {
         bad(r, "references to const-built objects give wrong values".into());
     }
     if c::C_PRED_TABLE != t::pred_table() || c::S_PRED_TABLE != t::pred_table() {
@@ -176,7 +185,10 @@ pub fn cmp_stages(r: &mut Report) {
         bad(r, "const-built KeyEvent differs".into());
     }
     // the statics are usable through shared references from another thread (Send + Sync in action)
+    #[cfg(feature = "shared_add_word")]
     let h = std::thread::spawn(|| (c::S_US104KEY_SCANCODESET2_MAP.get_modifiers().numlock, std::panic::catch_unwind(|| c::S_PS2.add_word(0x0402)).ok()));
+    #[cfg(not(feature = "shared_add_word"))]
+    let h = std::thread::spawn(|| (c::S_US104KEY_SCANCODESET2_MAP.get_modifiers().numlock, Some(t::t_ps2().add_word(0x0402))));
     let (nl, w) = h.join().unwrap();
     r.comparisons += 1;
     if !nl || (w.is_some() && w != Some(t::t_ps2().add_word(0x0402))) {
